@@ -233,6 +233,24 @@ def prop(case):
             raise Violation("reparse", "%s: written line %r not re-parsable: %s: %s" % (ctx, written, type(e).__name__, str(e)[:200]), dt)
         if bdt != dt or not values_equal(dt, spec, got):
             raise Violation("read-back", "%s: read back %r (datatype %s) from %r" % (ctx, got, bdt, written), dt)
+        if isinstance(got, (list, dict)) or hasattr(got, "append"):
+            # what a caller does to the value it read back (it is the caller's) has no bearing on what the
+            # same text gives when it is read again, at any level
+            try:
+                if isinstance(got, dict):
+                    got["__edited__"] = 1
+                else:
+                    got.append(got[0] if len(got) else 1)
+                    got.reverse()
+            except Exception:
+                pass
+            for lv in (max(vlevel, 1), 0):
+                try:
+                    again = gfapy.Line(written, version=version, vlevel=lv).get(name)
+                except Exception as e:
+                    raise Violation("reparse", "%s: written line %r not re-parsable a second time: %s: %s" % (ctx, written, type(e).__name__, str(e)[:200]), dt)
+                if not values_equal(dt, spec, again):
+                    raise Violation("read-back-again", "%s: %r read a second time (vlevel %d), after the first result was edited in place, gives %r" % (ctx, written, lv, again), dt)
         here = line.get(name)
         if not values_equal(dt, spec, here) and not (here == value):
             raise Violation("get-after-set", "%s: get returns %r" % (ctx, here), dt)
